@@ -98,6 +98,7 @@ type ftCaller struct {
 	kills []string // task ids of KILL calls
 	other int
 	fail  func(taskId string) bool
+	onKill func(taskId string) // what Mesos does after accepting a KILL (e.g. report TASK_KILLED)
 }
 
 func (c *ftCaller) Call(ctx context.Context, call *scheduler.Call) (mesos.Response, error) {
@@ -108,6 +109,9 @@ func (c *ftCaller) Call(ctx context.Context, call *scheduler.Call) (mesos.Respon
 		c.kills = append(c.kills, id)
 		if c.fail != nil && c.fail(id) {
 			return nil, context.DeadlineExceeded
+		}
+		if c.onKill != nil {
+			c.onKill(id)
 		}
 		return nil, nil
 	}
